@@ -1072,3 +1072,85 @@ Proof.
   destruct (common_wasted xs) as [w|] eqn:Ew; (apply enc_subframe_bound; [exact Hn|exact Hb|]);
     intros w' Ew'; apply (wasted_facts _ _ _ Ew' F).
 Qed.
+
+(* ---------------- C19 at frame level for the encoder as written ---------------- *)
+Lemma enc_stereo_cases o L bps l r :
+  let e := enc_sub o L in
+  let res := enc_stereo o L bps l r in
+  res = (1, [e bps l; e bps r]) \/
+  (bps < 32 /\ (res = (8, [e bps l; e (bps + 1) (side_of l r)]) \/
+                res = (9, [e (bps + 1) (side_of l r); e bps r]) \/
+                res = (10, [e bps (mid_of l r); e (bps + 1) (side_of l r)]))).
+Proof.
+  cbv zeta. unfold enc_stereo. destruct (eo_exhaustive o).
+  - destruct (N.ltb_spec bps 32) as [Hlt|]; [|left; reflexivity].
+    destruct (first_min _ _) as [c|] eqn:Ec; [|left; reflexivity].
+    apply first_min_in in Ec. destruct (eo_mid_side o); cbn [In] in Ec;
+      repeat (destruct Ec as [<-|Ec]; [auto 6|]); destruct Ec.
+  - destruct (N.ltb_spec bps 32) as [Hlt|]; [|left; reflexivity].
+    match goal with |- context [match ?m with Some c => fst c | None => 1 end] => set (a := match m with Some c => fst c | None => 1 end) end.
+    destruct (a =? 8); [auto 6|]. destruct (a =? 9); [auto 6|]. destruct (a =? 10); auto 6.
+Qed.
+
+Lemma write_subframes_indep_len o L a bps : a <? 8 = true -> forall chans i n,
+  Forall (fun c => c <> [] /\ N.of_nat (length c) = n /\ forallb (fits bps) c = true) chans -> 1 <= bps ->
+  N.of_nat (length (write_subframes a bps i (map (enc_sub o L bps) chans))) <= N.of_nat (length chans) * (8 + n * bps).
+Proof.
+  intros Ha. induction chans as [|c chans IH]; intros i n Hall Hb; cbn [map write_subframes length]; [lia|].
+  apply Forall_cons_iff in Hall. destruct Hall as [(Hne & Hl & F) Hrest].
+  rewrite app_length, subframe_bps_indep by exact Ha.
+  pose proof (enc_sub_bits o L bps c Hne F Hb) as B. unfold sf_bits in B. rewrite Hl in B.
+  specialize (IH (S i) n Hrest Hb). lia.
+Qed.
+
+Theorem enc_frame_size o L si rate bps number chans bytes :
+  enc_frame_bytes o L rate bps number chans = Some bytes -> block_ok si bps chans ->
+  let ch := N.of_nat (length chans) in let n := block_len chans in
+  N.of_nat (length bytes) <= 16 + (ch * (8 + n * bps) + (if ch =? 2 then n else 0) + 7) / 8 + 2.
+Proof.
+  unfold enc_frame_bytes, enc_frame. intros H (Hch & Hb1 & Hb32 & _ & _ & n & Hn1 & _ & _ & Hall).
+  destruct (code_of_rate rate) as [rc|]; [|discriminate].
+  remember (enc_subs o L bps chans) as res eqn:Eres.
+  destruct chans as [|c0 rest] eqn:Echans; [discriminate|]. rewrite <- Echans in *. cbv zeta in H.
+  assert (Hc0 : block_len chans = n).
+  { rewrite Echans in *. apply Forall_cons_iff in Hall. destruct Hall as [[A _] _]. exact A. }
+  rewrite Hc0.
+  assert (Hall' : Forall (fun c => c <> [] /\ N.of_nat (length c) = n /\ forallb (fits bps) c = true) chans).
+  { eapply Forall_impl; [|exact Hall]. intros c [A B]. repeat split; auto. intros ->. cbn in A. lia. }
+  (* bits of the subframes *)
+  assert (Hbits : N.of_nat (length (write_subframes (fst res) bps 0 (snd res)))
+                  <= N.of_nat (length chans) * (8 + n * bps) + (if N.of_nat (length chans) =? 2 then n else 0)).
+  { assert (Hindep : res = (N.of_nat (length chans) - 1, map (enc_sub o L bps) chans) ->
+              N.of_nat (length (write_subframes (fst res) bps 0 (snd res))) <= N.of_nat (length chans) * (8 + n * bps)).
+    { intros E. rewrite E. cbn [fst snd]. apply write_subframes_indep_len; auto. apply N.ltb_lt. lia. }
+    unfold enc_subs in Eres.
+    destruct chans as [|l [|r [|c2 more]]] eqn:E2.
+    - discriminate.
+    - specialize (Hindep Eres). cbn [length] in *. destruct (N.of_nat 1 =? 2); lia.
+    - (* stereo: one of the four candidates *)
+      apply Forall_cons_iff in Hall'. destruct Hall' as [(Nl & Ll & Fl) Hr'].
+      apply Forall_cons_iff in Hr'. destruct Hr' as [(Nr & Lr & Fr) _].
+      assert (Hlen : length l = length r) by lia.
+      pose proof (enc_sub_bits o L bps l Nl Fl Hb1) as Bl. pose proof (enc_sub_bits o L bps r Nr Fr Hb1) as Br.
+      unfold sf_bits in Bl, Br. rewrite Ll in Bl. rewrite Lr in Br.
+      assert (Bs : bps < 32 -> N.of_nat (length (write_subframe (bps + 1) (enc_sub o L (bps + 1) (side_of l r)))) <= 8 + n * (bps + 1)).
+      { intros Hlt. pose proof (enc_sub_bits o L (bps + 1) (side_of l r)) as B. unfold sf_bits in B.
+        rewrite (side_of_length l r Hlen), Ll in B. apply B; [|apply side_of_fits; assumption|lia].
+        destruct l, r; try congruence; discriminate. }
+      assert (Bm : N.of_nat (length (write_subframe bps (enc_sub o L bps (mid_of l r)))) <= 8 + n * bps).
+      { pose proof (enc_sub_bits o L bps (mid_of l r)) as B. unfold sf_bits in B.
+        rewrite (mid_of_length l r Hlen), Ll in B. apply B; [|apply mid_of_fits; assumption|lia].
+        destruct l, r; try congruence; discriminate. }
+      change (N.of_nat (length [l; r]) =? 2) with true. cbv iota. change (N.of_nat (length [l; r])) with 2.
+      destruct (enc_stereo_cases o L bps l r) as [E|[Hlt [E|[E|E]]]]; cbv zeta in E; rewrite <- Eres in E; rewrite E;
+        cbn [fst snd write_subframes]; rewrite !app_length; cbn [length];
+        unfold subframe_bps; cbn [N.eqb Pos.eqb Nat.eqb andb]; try specialize (Bs Hlt); lia.
+    - specialize (Hindep Eres). cbn [length] in *.
+      destruct (N.of_nat (S (S (S (length more)))) =? 2); lia. }
+  eapply (frame_bytes_bound _ bytes (N.to_nat (N.of_nat (length chans) * (8 + n * bps) + (if N.of_nat (length chans) =? 2 then n else 0)))) in H.
+  - set (B := N.of_nat (length chans) * (8 + n * bps) + (if N.of_nat (length chans) =? 2 then n else 0)) in *.
+    assert (D : ((N.to_nat B + 7) / 8)%nat = N.to_nat ((B + 7) / 8)).
+    { rewrite N2Nat.inj_div. f_equal. lia. }
+    rewrite D in H. lia.
+  - cbn [f_hdr f_subs h_assign h_bps]. lia.
+Qed.
